@@ -182,7 +182,9 @@ theorem pengIonic_exceptions : exceptions pengIonicTable pos10 =
   decide +kernel
 
 /-- the three ions of the ionic table whose sampled real-space potential is not positive / not decreasing violate the
-coefficient hypothesis (documenting witness of the known finding; the negativity itself is observed by the oracle) -/
+coefficient hypothesis (PRECONDITION witness of the known findings: it states that the sign hypothesis of `peng_entry_potential` fails for these ions —
+and would become unprovable if the published weights were made positive; that the potential actually goes negative there is
+re-derived numerically by the oracle from the published Gaussians, it is not proved) -/
 theorem pengIonic_sign_hypothesis_fails :
     ["Si++++", "Ge++++", "Pd++"].all (fun s => (exceptions pengIonicTable pos10).contains s) = true := by
   rw [pengIonic_exceptions]; decide
@@ -203,6 +205,19 @@ theorem pengHigh_table_sf (e : String × List (List ℚ)) (he : e ∈ pengHighTa
 theorem pengHigh_table_potential (kappa : ℝ) (hk : 0 < kappa) (e : String × List (List ℚ)) (he : e ∈ pengHighTable) (hn : e.1 ≠ "Ra") :
     (∀ r, 0 < pengPotential kappa e.2 r) ∧ ∀ r s, 0 ≤ r → r < s → pengPotential kappa e.2 s < pengPotential kappa e.2 r :=
   peng_entry_potential kappa hk e.2 (ok_of_not_exception pengHighTable pos10 e he (by rw [pengHigh_exceptions]; simpa using hn))
+
+theorem pengLow_table_potential (kappa : ℝ) (hk : 0 < kappa) (e : String × List (List ℚ)) (he : e ∈ pengLowTable)
+    (hn : e.1 ≠ "Rb" ∧ e.1 ≠ "Np") :
+    (∀ r, 0 < pengPotential kappa e.2 r) ∧ ∀ r s, 0 ≤ r → r < s → pengPotential kappa e.2 s < pengPotential kappa e.2 r :=
+  peng_entry_potential kappa hk e.2 (ok_of_not_exception pengLowTable pos10 e he (by rw [pengLow_exceptions]; simpa using hn))
+
+/-- ionic table: every ion outside the exception list has a positive, strictly decreasing scattering factor and potential -/
+theorem pengIonic_table_sf_potential (kappa : ℝ) (hk : 0 < kappa) (e : String × List (List ℚ)) (he : e ∈ pengIonicTable)
+    (hn : e.1 ∉ exceptions pengIonicTable pos10) :
+    ((∀ x, 0 < pengSF e.2 x) ∧ ∀ x y, x < y → pengSF e.2 y < pengSF e.2 x) ∧
+      ((∀ r, 0 < pengPotential kappa e.2 r) ∧ ∀ r s, 0 ≤ r → r < s → pengPotential kappa e.2 s < pengPotential kappa e.2 r) := by
+  have hok := ok_of_not_exception pengIonicTable pos10 e he hn
+  exact ⟨⟨peng_entry_sf_pos e.2 hok, peng_entry_sf_strictAnti e.2 hok⟩, peng_entry_potential kappa hk e.2 hok⟩
 
 theorem pengLow_table_sf (e : String × List (List ℚ)) (he : e ∈ pengLowTable) (hn : e.1 ≠ "Rb" ∧ e.1 ≠ "Np") :
     (∀ x, 0 < pengSF e.2 x) ∧ ∀ x y, x < y → pengSF e.2 y < pengSF e.2 x := by
